@@ -211,8 +211,9 @@ def run(ctx):
     # ---------------------------------------------------------------- 1. TLC: models and generators (independent runs, in parallel)
     jobs = {
         "states": dict(module="BulkStates", cfg="BulkStates.cfg"),
-        "gen": dict(module="BulkLoad", cfg="BulkLoad_quick.cfg" if quick else "BulkLoad_thorough.cfg"),
-        "sim": dict(module="BulkLoad", cfg="BulkLoad_sim.cfg", simulate="num=%d" % (40 if quick else 400), depth=6, workers=1),
+        "gen": dict(module="BulkLoad", cfg="BulkLoad_quick.cfg"),
+        "sim": dict(module="BulkLoad", cfg="BulkLoad_sim.cfg", simulate="num=%d" % (40 if quick else 700), depth=6, workers=1),
+        "sim4": dict(module="BulkLoad", cfg="BulkLoad_sim4.cfg", simulate="num=%d" % (20 if quick else 700), depth=5, workers=1),
         "scaled": dict(module="BulkLoad", cfg="BulkLoad_scaled.cfg", simulate="num=%d" % (2 if quick else 12), depth=4, workers=1),
         "waits": dict(module="BulkImpl", cfg="BulkImpl_waits.cfg" if quick else "BulkImpl_waits4.cfg"),
         "pinned": dict(module="BulkImpl", cfg="BulkImpl_pinned_a.cfg" if quick else "BulkImpl_pinned_full.cfg"),
@@ -245,7 +246,7 @@ def run(ctx):
     init = res["gen"].msgs.get("init", [None])[0]
     if not tbl or init is None:
         raise Inconclusive("BulkStates/BulkLoad printed no observation table / initial store")
-    streams = dedup(res["gen"].msgs.get("stream", []) + res["sim"].msgs.get("stream", []), "stream")
+    streams = dedup(res["gen"].msgs.get("stream", []) + res["sim4"].msgs.get("stream", []) + res["sim"].msgs.get("stream", []), "stream")
     scaled = dedup(res["scaled"].msgs.get("scaled", []), "stream")
     # predictions of the pinned-loop model: one per (stream, policy, kind)
     preds, seenp = [], set()
@@ -276,7 +277,7 @@ def run(ctx):
         streams = streams[::thin]
         scaled = scaled[::thin]
     for n, s in enumerate(streams):
-        reqs += requests_for(s, n, nvar=(2 if quick else 3))
+        reqs += requests_for(s, n, nvar=(2 if quick else 6))
     for n, s in enumerate(scaled):
         reqs += requests_for(s, n, scaled=True)
     # the model's commit-order witnesses, replayed with that schedule imposed on the consumer goroutines
@@ -294,6 +295,12 @@ def run(ctx):
             reqs.append((dict(kind="stream", stream=s["stream"], target="server", pol="all", order=order), s["out"]["all"], 0))
         else:
             reqs.append((dict(kind="stream", stream=s["stream"], target="server", pol="all", late=True), s["out"]["all"], 0))
+    if os.environ.get("VERIF_C18_CORRUPT"):
+        # self-test of the binding: falsify one expected insert count; the check must then report a divergence
+        for n, (rq, want, extra) in enumerate(reqs):
+            if rq["target"] == "server" and want["ins"] > 0 and not rq.get("scaled"):
+                reqs[n] = (rq, dict(want, ins=want["ins"] + 1), extra)
+                break
     edits = dedup([dict(req=r) for r in res["edit"].msgs.get("req", [])], "req")
     lines = [dict(setup=True, init=init)]
     for i, (rq, want, extra) in enumerate(reqs):
@@ -366,12 +373,13 @@ def run(ctx):
     ctx.cov.update(evaluations=J.n + nedit, distinct_nontrivial=len(J.nontrivial), traces_validated_against_impl=J.n + nedit,
                    streams=len(streams), scaled_streams=len(scaled), scheduled_replays=len(sched), edit_requests=nedit, differential_pairs=ndiff,
                    exhaustive=True, observation_table_states=len(tbl),
-                   rule="every stream of length <= %d over the 18-element alphabet of BulkAbs.tla ({g1, g2, missing graph, empty name, schema-suffixed name} x "
-                        "{vertex, edge, neither} x {valid, invalid}, repeated ids) plus sampled streams of length 5 and scaled streams of lengths 49-51, 99-101, 250; "
+                   rule="every stream of length <= 3 over the 18-element alphabet of BulkAbs.tla ({g1, g2, missing graph, empty name, schema-suffixed name} x "
+                        "{vertex, edge, neither} x {valid, invalid}, repeated ids) plus sampled streams of length 4 and 5 and scaled streams of lengths 49-51, 99-101, 250; "
                         "each replayed on server.BulkAdd (plain; behind BulkWriteFilter with 3 policies), kvgraph BulkAdd, util.StreamBatch (batch 1-3, 50) and "
-                        "one-by-one AddVertex/AddEdge, then counts and the complete observation compared with the abstract outcome; "
+                        "one-by-one AddVertex/AddEdge (quick tier: the plain server for every stream plus two of the six other variants in rotation), "
+                        "then counts and the complete observation compared with the abstract outcome; "
                         "evaluations = judged replays + edit requests; non-trivial = distinct streams with at least one storable element"
-                        % (3 if quick else 4))
+                   )
     ctx.assumptions += [
         "errorCount is only bounded from below (number of vertices/edges that fail validation); whether elements naming a missing graph, a schema-suffixed graph, "
         "the empty graph name, or carrying neither vertex nor edge are counted as errors is left open; elements denied by the policy are not counted at all",
